@@ -356,7 +356,9 @@ def item_price(item, cur, c, rates):
             return parse(ap["value"]).match(A(0, SUBUNITS[cur]))
     for r in rates:
         if r["from"] == item["currency"] and r["to"] == cur:
-            return price.mul(parse(r["amount"])).rescale(SUBUNITS[cur])
+            # ExchangeRate.Convert (as repaired): the amount is held with at least the destination currency's decimals
+            # before it is multiplied (Multiply rounds to its receiver's decimals), then expressed in that currency
+            return price.match(A(0, SUBUNITS[cur])).mul(parse(r["amount"])).rescale(SUBUNITS[cur])
     return None
 
 
